@@ -21,7 +21,7 @@
    The hypothesis of Properties/C05.v (C05_norm_invariant) is checked on every input: it must be in
    the decodable class (decodableb, sound by C05_decodable_check). *)
 From Coq Require Import List ZArith Bool String.
-From Verif Require Import Base.Prelude Base.Str Base.GoVal Schema.Cbor Interp.Sexp Interp.Codec Proofs.CborNorm.
+From Verif Require Import Base.Prelude Base.Str Base.GoVal Schema.Cbor Interp.Sexp Interp.Codec Schema.Decodable.
 Import ListNotations.
 Open Scope string_scope.
 Open Scope list_scope.
